@@ -181,6 +181,12 @@ pub open spec fn m_update<K, V>(s: Seq<(K, V)>, k: K, v: V) -> Seq<(K, V)> {
 pub open spec fn m_remove<K, V>(s: Seq<(K, V)>, k: K) -> Seq<(K, V)> {
     if m_has(s, k) { s.remove(m_idx(s, k)) } else { s }
 }
+/// remove by moving the LAST entry into the hole (`Vec::swap_remove` order)
+pub open spec fn m_swap_remove<K, V>(s: Seq<(K, V)>, k: K) -> Seq<(K, V)> {
+    if m_has(s, k) {
+        if m_idx(s, k) == s.len() - 1 { s.drop_last() } else { s.update(m_idx(s, k), s.last()).drop_last() }
+    } else { s }
+}
 pub open spec fn m_get<K, V>(s: Seq<(K, V)>, k: K) -> Option<V> {
     if m_has(s, k) { Some(s[m_idx(s, k)].1) } else { None }
 }
@@ -294,6 +300,38 @@ impl<K: View, V: View> IndexMap<K, V> {
     #[verifier::external_body]
     pub fn len(&self) -> (r: usize)
         ensures r == self@.len(), r < usize::MAX,
+    { unimplemented!() }
+
+    // ---- further commonly used methods of the real type (additive; not called by the
+    // ---- current code, present so that an edit that switches to them is still judged) ----
+    /// map.rs `swap_remove` -> core.rs `swap_remove_full`: "Like Vec::swap_remove, the
+    /// pair is removed by swapping it with the last element of the map and popping it
+    /// off. This perturbs the position of what used to be the last element! Return
+    /// None if key is not in map."
+    #[verifier::external_body]
+    pub fn swap_remove(&mut self, key: &K) -> (r: Option<V>)
+        ensures
+            final(self)@ == m_swap_remove(old(self)@, key@),
+            r is Some <==> m_has(old(self)@, key@),
+            r is Some ==> Some(r->Some_0@) == m_get(old(self)@, key@),
+    { unimplemented!() }
+
+    /// map.rs `contains_key`: "Return true if an equivalent to key exists in the map."
+    #[verifier::external_body]
+    pub fn contains_key(&self, key: &K) -> (r: bool)
+        ensures r == m_has(self@, key@),
+    { unimplemented!() }
+
+    /// map.rs `is_empty`: "Returns true if the map contains no elements."
+    #[verifier::external_body]
+    pub fn is_empty(&self) -> (r: bool)
+        ensures r == (self@.len() == 0),
+    { unimplemented!() }
+
+    /// map.rs `clear`: "Remove all key-value pairs in the map, while preserving its capacity."
+    #[verifier::external_body]
+    pub fn clear(&mut self)
+        ensures final(self)@ == Seq::<(K::V, V::V)>::empty(),
     { unimplemented!() }
 }
 
